@@ -233,7 +233,7 @@ def _bind(helper, call):
         return None
     params = [x.arg for x in a.args]
     static = any(isinstance(d, ast.Name) and d.id == 'staticmethod' for d in helper.decorator_list)
-    if not static:
+    if not static and not getattr(helper, '_module_level', False):
         params = params[1:]
     binding = {}
     if any(isinstance(x, ast.Starred) for x in call.args) or any(k.arg is None for k in call.keywords):
@@ -266,6 +266,7 @@ class Inliner:
         self.no_inline = no_inline
         self.inlined_calls = {}           # helper qual -> count
         self.kept_calls = {}
+        self.module_funcs = {}            # private module-level functions of this module
 
     def helper(self, cls_chain, name):
         for c in cls_chain:
@@ -274,10 +275,13 @@ class Inliner:
                     return c, b
         return None, None
 
-    def eligible(self, h, name, caller):
+    def module_helper(self, name):
+        return self.module_funcs.get(name)
+
+    def eligible(self, h, name, caller, allow_generator=False):
         if h is None or h is caller or name in self.no_inline or not name.startswith('_') or name.startswith('__'):
             return False
-        if _contains_yield(h) or len(list(_walk_no_nested(h))) > 800:
+        if (_contains_yield(h) and not allow_generator) or len(list(_walk_no_nested(h))) > 800:
             return False
         n_stmts = sum(1 for n in _walk_no_nested(h) if isinstance(n, ast.stmt))
         if n_stmts > MAX_HELPER_STMTS:
@@ -294,6 +298,16 @@ class Inliner:
     def _self_call(e):
         return isinstance(e, ast.Call) and isinstance(e.func, ast.Attribute) and isinstance(
             e.func.value, ast.Name) and e.func.value.id in ('self',)
+
+    def lookup(self, chain, call):
+        """(owner, helper def, name) for a call that may be inlined, else (None, None, None)"""
+        if self._self_call(call):
+            o, h = self.helper(chain, call.func.attr)
+            return o, h, call.func.attr
+        if isinstance(call, ast.Call) and isinstance(call.func, ast.Name) and call.func.id in self.module_funcs:
+            h = self.module_funcs[call.func.id]
+            return None, h, call.func.id
+        return None, None, None
 
     def pure_expr(self, h, binding):
         """for helpers that are straight-line local assignments + return <expr>: that expression
@@ -381,11 +395,11 @@ class _InlineStmts(ast.NodeTransformer):
         self.qual_of = qual_of
         self.changed = False
 
-    def _try(self, call, target, at):
-        if not Inliner._self_call(call):
+    def _try(self, call, target, at, allow_generator=False):
+        owner, h, hname = self.inl.lookup(self.chain, call)
+        if h is None:
             return None
-        owner, h = self.inl.helper(self.chain, call.func.attr)
-        if not self.inl.eligible(h, call.func.attr, self.caller):
+        if not self.inl.eligible(h, hname, self.caller, allow_generator):
             return None
         b = _bind(h, call)
         if b is None:
@@ -403,11 +417,20 @@ class _InlineStmts(ast.NodeTransformer):
             r = self._try(node.value, None, node)
             if r is not None:
                 return r
+        # yield from self._part(...)  : a generator split into parts
+        if isinstance(node.value, ast.YieldFrom) and isinstance(node.value.value, ast.Call):
+            r = self._try(node.value.value, None, node, allow_generator=True)
+            if r is not None:
+                return r
         return node
 
     def visit_Assign(self, node):
         if isinstance(node.value, ast.Call):
             r = self._try(node.value, node.targets, node)
+            if r is not None:
+                return r
+        if isinstance(node.value, ast.YieldFrom) and isinstance(node.value.value, ast.Call):
+            r = self._try(node.value.value, node.targets, node, allow_generator=True)
             if r is not None:
                 return r
         # x = [self._h(v) for v in I]
@@ -472,11 +495,26 @@ class _InlineExprs(ast.NodeTransformer):
         self.qual_of = qual_of
         self.changed = False
 
+    def visit_Attribute(self, node):
+        # self.<prop> where <prop> is a straight-line @property of the class: its expression
+        self.generic_visit(node)
+        if isinstance(node.ctx, ast.Load) and isinstance(node.value, ast.Name) and node.value.id == 'self':
+            owner, h = self.inl.helper(self.chain, node.attr)
+            if h is not None and any(isinstance(d, ast.Name) and d.id == 'property' for d in h.decorator_list) \
+                    and h is not self.caller and node.attr not in self.inl.no_inline:
+                e = self.inl.pure_expr(h, {})
+                if e is not None:
+                    self.changed = True
+                    q = self.qual_of(owner, h)
+                    self.inl.inlined_calls[q] = self.inl.inlined_calls.get(q, 0) + 1
+                    return ast.copy_location(e, node)
+        return node
+
     def visit_Call(self, node):
         self.generic_visit(node)
-        if Inliner._self_call(node):
-            owner, h = self.inl.helper(self.chain, node.func.attr)
-            if self.inl.eligible(h, node.func.attr, self.caller):
+        owner, h, hname = self.inl.lookup(self.chain, node)
+        if h is not None:
+            if self.inl.eligible(h, hname, self.caller):
                 b = _bind(h, node)
                 if b is not None:
                     e = self.inl.pure_expr(h, b)
@@ -562,8 +600,12 @@ def normalize_module(tree, no_inline, all_classes=None):
         return out
 
     def qual_of(owner, h):
-        return '%s.%s' % (owner.name, h.name)
+        return '%s.%s' % (owner.name, h.name) if owner is not None else ':%s' % h.name
     inl = Inliner(classes, no_inline)
+    for n in tree.body:
+        if isinstance(n, ast.FunctionDef) and n.name.startswith('_') and not n.name.startswith('__'):
+            n._module_level = True
+            inl.module_funcs[n.name] = n
     for c in classes.values():
         ch = chain(c)
         for fn in [b for b in c.body if isinstance(b, ast.FunctionDef)]:
